@@ -62,8 +62,8 @@ func init() {
 				if maxReq <= 32 {
 					n = pick(r, 0, 1, maxReq-1, maxReq, maxReq, maxReq+1, r.Intn(maxReq+1))
 				} else {
-					n = pick(r, 0, 1, 15, 16, 17, 31, 32, 33, 64, 65, r.Intn(130), r.Intn(130), 300)
-					if r.Intn(40) == 0 {
+					n = pick(r, 0, 1, 15, 16, 17, 31, 32, 33, 64, 65, r.Intn(130), r.Intn(130), 200)
+					if r.Intn(40) == 0 && c.mech != "hmac" {
 						n = maxReq + 1
 					}
 				}
